@@ -588,6 +588,23 @@ def _mul_t(a, b):
     return a * b
 
 
+class _DeferToFloat(Exception):
+    pass
+
+
+FP_MODE = [False]     # when set, true division of a symbolic int yields a binary64 SymFloat (C05 float items)
+
+
+def _defer(fn):
+    def w(self, o):
+        try:
+            return fn(self, o)
+        except _DeferToFloat:
+            return NotImplemented
+    w.__name__ = fn.__name__
+    return w
+
+
 class SymInt:
     """Symbolic Python int (isfloat=True: a float known to hold an integral value)."""
     __slots__ = ('t', 'isfloat')
@@ -602,6 +619,8 @@ class SymInt:
     # -- arithmetic
     def _coerce(self, o):
         """-> (term, isfloat) or None (NotImplemented)."""
+        if type(o).__name__ == 'SymFloat':
+            raise _DeferToFloat()
         if isinstance(o, SymInt):
             return o.t, o.isfloat
         if isinstance(o, bool):
@@ -620,6 +639,7 @@ class SymInt:
             pass
         return None
 
+    @_defer
     def __add__(self, o):
         c = self._coerce(o)
         if c is None:
@@ -628,18 +648,21 @@ class SymInt:
 
     __radd__ = __add__
 
+    @_defer
     def __sub__(self, o):
         c = self._coerce(o)
         if c is None:
             return self._float_op('sub', o)
         return self._mk(self.t - c[0], self.isfloat or c[1])
 
+    @_defer
     def __rsub__(self, o):
         c = self._coerce(o)
         if c is None:
             return self._float_op('rsub', o)
         return self._mk(c[0] - self.t, self.isfloat or c[1])
 
+    @_defer
     def __mul__(self, o):
         c = self._coerce(o)
         if c is None:
@@ -657,31 +680,40 @@ class SymInt:
 
     __rmul__ = __mul__
 
+    @_defer
     def __floordiv__(self, o):
         c = self._coerce(o)
         if c is None:
             return self._float_op('floordiv', o)
         return self._mk(_floordiv_t(self.t, c[0]), self.isfloat or c[1])
 
+    @_defer
     def __rfloordiv__(self, o):
         c = self._coerce(o)
         if c is None:
             return self._float_op('rfloordiv', o)
         return self._mk(_floordiv_t(c[0], self.t), self.isfloat or c[1])
 
+    @_defer
     def __mod__(self, o):
         c = self._coerce(o)
         if c is None:
             return self._float_op('mod', o)
         return self._mk(_mod_t(self.t, c[0]), self.isfloat or c[1])
 
+    @_defer
     def __rmod__(self, o):
         c = self._coerce(o)
         if c is None:
             return self._float_op('rmod', o)
         return self._mk(_mod_t(c[0], self.t), self.isfloat or c[1])
 
+    @_defer
     def __truediv__(self, o):
+        if FP_MODE[0]:
+            from .symfloat import SymFloat, to_fp
+            import z3 as _z3
+            return SymFloat(_z3.fpDiv(_z3.RNE(), to_fp(self), to_fp(o)))
         # exact only when divisible; otherwise not encoded
         c = self._coerce(o)
         if c is not None and z3.is_int_value(c[0]) and c[0].as_long() != 0 and abs(c[0].as_long()) <= 65536:
@@ -736,22 +768,28 @@ class SymInt:
         a, b = self.t, c[0]
         return mkbool({'lt': a < b, 'le': a <= b, 'gt': a > b, 'ge': a >= b, 'eq': a == b, 'ne': a != b}[op])
 
+    @_defer
     def __lt__(self, o):
         return self._cmp(o, 'lt')
 
+    @_defer
     def __le__(self, o):
         return self._cmp(o, 'le')
 
+    @_defer
     def __gt__(self, o):
         return self._cmp(o, 'gt')
 
+    @_defer
     def __ge__(self, o):
         return self._cmp(o, 'ge')
 
+    @_defer
     def __eq__(self, o):
         r = self._cmp(o, 'eq')
         return False if r is NotImplemented else r
 
+    @_defer
     def __ne__(self, o):
         r = self._cmp(o, 'ne')
         return True if r is NotImplemented else r
